@@ -82,12 +82,42 @@ type Sched struct {
 	IdleTime  time.Duration
 }
 
+// cellCache recycles the cell table between runs of one worker process
+// (runs are sequential; the table of a finished run is dead).
+var cellCache [][]cell
+
+func getCells() []cell {
+	if n := len(cellCache); n > 0 {
+		c := cellCache[n-1]
+		cellCache = cellCache[:n-1]
+		return c
+	}
+	return make([]cell, 1<<15)
+}
+
+// Release returns the scheduler's tables for reuse. Call only after Kill.
+func (s *Sched) Release() {
+	if s.cells == nil {
+		return
+	}
+	n := int(s.ncells)
+	if n > len(s.cells) {
+		n = len(s.cells)
+	}
+	clear(s.cells[:n])
+	if len(cellCache) < 4 {
+		cellCache = append(cellCache, s.cells)
+	}
+	s.cells = nil
+	s.active = nil
+}
+
 func NewSched(t *Tape) *Sched {
 	return &Sched{
 		Tape:      t,
 		MaxSteps:  20000,
 		HangAfter: 120 * time.Second,
-		cells:     make([]cell, 1<<15),
+		cells:     getCells(),
 		ack:       make(chan struct{}),
 		Hash:      14695981039346656037,
 	}
